@@ -1,11 +1,14 @@
 Require Extraction.
 Require Import ExtrOcamlBasic.
 From GoPdf.Base Require Import WireAnchor.
-From GoPdf.C05 Require Import Refill PrevChain Resolve Walk XRefCount ObjStmGet.
+From GoPdf.C05 Require Import Refill PrevChain Resolve Walk XRefCount ObjStmGet Nest ObjStmIndex DecodePath.
 Separate Extraction wire_anchor
   Refill.run_ops Refill.new_scanner
   PrevChain.read_xref PrevChain.prev_fuel
   Resolve.resolve_in
   Walk.iter_pages Walk.find_pages Walk.tree_all Walk.outline_items
   XRefCount.read_xref_stream
-  ObjStmGet.get_in.
+  ObjStmGet.get_in
+  Nest.read_object
+  ObjStmIndex.objstm_find
+  DecodePath.decode_in.
